@@ -156,6 +156,18 @@ CHECKS = {
         note='Three known findings (text key prefix pairs, -0.0, integers beyond 2^53) are matched by trigger + predicted deviation only. Ranks are computed with Fraction / code points (trusted).',
         technique='TLA+ ideal-vs-implemented sort key design model-checked exhaustively; exported tables replayed; rank-abstracted real runs validated by a TLC trace spec',
         design='6/C12', specs=['ProcSort.tla', 'SortTrace.tla']),
+    'C14': dict(
+        level='model_checking',
+        text='ProcValidate.tla gives the declarative meaning of every error policy (raise, drop, ignore, clear, custom 4- and 5-argument '
+             'handlers) and the cast loop as implemented (one action per cell, one per row end); TLC checks, on all 26 214 cases (tables of '
+             '<=3 rows x 2 checked fields x {native, lexical, invalid, null} x 6 policies), that the loop yields exactly the defined rows, '
+             'row indices, offending row/field of a raise and handler call log, and that all-valid rows are never dropped or altered. '
+             'Every exported case (quick: a seeded fifth) is instantiated with concrete values for 9 type/constraint settings (integer, '
+             'number, boolean, date, datetime, year, string with maxLength, array, integer with minimum) and run through set_type with a '
+             'field-name regex, validate(), results(on_error=) and the dumpers\' validator; native values are tableschema\'s own casts.',
+        note='Trusted: tableschema Field.cast_value as the reference cast; the value catalogue. The dumper channel is limited to policies whose output a dumper can serialise and to types whose format it does not re-declare.',
+        technique='TLA+ declarative-vs-loop model of the error policy checked with TLC; every exported case replayed through four real validator entry points',
+        design='6/C14', specs=['ProcValidate.tla']),
 }
 
 NOT_YET = 'check not built yet (build in progress, see DESIGN.md section 10)'
